@@ -10,6 +10,8 @@ func vKeepalive(idx int) (ping, pong time.Duration) {
 		return 7 * time.Second, 3 * time.Second
 	case 2:
 		return time.Second, time.Second
+	case 3: // pong timeout longer than the ping interval
+		return time.Second, 3 * time.Second
 	}
 	return 5 * time.Second, 3 * time.Second
 }
@@ -20,7 +22,7 @@ func vKeepalive(idx int) (ping, pong time.Duration) {
 // fail) within ping + pong + resend slack.
 func VH_C13_Blackhole() {
 	n := uint8(vIntRange("n", 1, vParam("maxn", 2)))
-	ping, pong := vKeepalive(vIntRange("keepalive", 0, 2))
+	ping, pong := vKeepalive(vIntRange("keepalive", 0, vParam("maxka", 3)))
 	p := vConnect(n, 0, WithKeepalivePing(ping, pong))
 	vAssert(p.cliErr == nil && p.srvErr == nil, "clean handshake failed")
 	if p.cliErr != nil || p.srvErr != nil {
@@ -68,7 +70,7 @@ func VH_C13_Blackhole() {
 // is never closed by keep-alive, over ten virtual minutes.
 func VH_C13_Idle() {
 	n := uint8(vIntRange("n", 1, 2))
-	ping, pong := vKeepalive(vIntRange("keepalive", 0, 2))
+	ping, pong := vKeepalive(vIntRange("keepalive", 0, vParam("maxka", 3)))
 	p := vConnect(n, 0, WithKeepalivePing(ping, pong))
 	vAssert(p.cliErr == nil && p.srvErr == nil, "clean handshake failed")
 	if p.cliErr != nil || p.srvErr != nil {
